@@ -86,7 +86,7 @@ TEXT = {
  'C14': dict(engine='sweep+pbt', design_ref='DESIGN.md 5/C14',
    technique='exhaustive calendar sweep + property-based testing vs independent calendar reference (Rata-Die, __int128)',
    level_text='Every day of a 30,000-year range is printed in seven precisions and two representation widths, compared character by character with an independent calendar and parsed back; every second of the leap/century/epoch boundary days likewise; ~3*10^5 generated extreme and random instants and durations per quick run are printed, compared, parsed back (also from UTF-16/32 text), read by an independent ISO-8601 duration reader and passed through the MsgPack timestamp (time_t also through JSON, XML and CSV), under ASan/UBSan.',
-   level_note=_NOTE + ' Two recorded findings (KF-27, KF-33) narrow the time-point domain at the extreme ends of 64-bit ranges; both are witnessed on every run.'),
+   level_note=_NOTE + ' Two recorded findings (KF-27, KF-33) narrow the time-point domain at the very ends of 64-bit ranges (text that prints correctly but is rejected by the parser); both are witnessed on every run.'),
 
  'C16': dict(engine='sweep+pbt', design_ref='DESIGN.md 5/C16',
    technique='exhaustive sweep + grammar-based property testing vs independent numeric reference (glibc strto*, __int128)',
